@@ -32,6 +32,7 @@ package cbor
 //@   ensures ok: err == nil ==> n >= 0 && pos + n <= len(d.data) && d.consumed + gf(d.dec, read) == pos + n && d.consumed >= 0 && gf(d.dec, read) >= 0 && d.consumed <= len(d.data) && gf(d.dec, read) <= len(d.data)
 //@   ensures fail: err != nil ==> d.consumed == old(d.consumed) && d.dec == old(d.dec)
 //@   ensures total: n >= 0 && n <= len(d.data) - pos ==> err == nil
+//@   ensures rest: err == nil ==> d.dec != nil && gf(d.dec, limit) == len(d.data) - d.consumed && gf(d.dec, read) == 0
 
 //@ func (d *StreamDecoder) DecodeArrayHeader() (length, start, hlen, err)
 //@   props C02 C30
@@ -117,3 +118,65 @@ package cbor
 //@   props C02
 //@   pure
 //@   ensures header: (count >= 0 || indef) ==> hdr >= 1 && hdr <= 9 && int(hdr) <= len(data)
+
+// C02: the diagnostic parser (cbor/diagnostic.go) walks the input with a StreamDecoder and reads
+// header bytes by hand. Well-formed decoder: the position is consumed + the library decoder's read
+// count, the library decoder was created over data[consumed:], so the position never leaves the data.
+// Every parse function keeps the decoder well-formed, never moves it backwards and never replaces the
+// data; with that, no index or slice expression in them can panic (data[start:end] included).
+//@ spec func sdPos(d *StreamDecoder) int = d.consumed + gf(d.dec, read)
+//@ spec func sdWF(d *StreamDecoder) bool = d != nil && d.dec != nil && d.consumed >= 0 && gf(d.dec, read) >= 0 && gf(d.dec, read) <= gf(d.dec, limit) && d.consumed + gf(d.dec, limit) == len(d.data)
+//@ func parseCollectionHeader(data, offset) (n, hlen, indef, err)
+//@   props C02
+//@   pure
+//@   requires off: offset >= 0
+//@   ensures inside: err == nil ==> hlen >= 1 && hlen <= 9 && offset + hlen <= len(data) && n >= 0
+//@   loop 0 invariant i >= 1 && i <= 9
+//@ func parseTagHeader(data, offset) (tag, hlen, err)
+//@   props C02
+//@   pure
+//@   requires off: offset >= 0
+//@   ensures inside: err == nil ==> hlen >= 1 && hlen <= 9 && offset + hlen <= len(data)
+//@   loop 0 invariant i >= 1 && i <= 9
+//@ func ParseDiagnostic(data) (n, err)
+//@   props C02
+//@ func parseDiagnosticNode(dec, depth) (n, err)
+//@   props C02
+//@   requires wf: sdWF(dec)
+//@   ensures wf: sdWF(dec) && dec.data == old(dec.data) && sdPos(dec) >= old(sdPos(dec))
+//@   ensures node: err == nil ==> n != nil
+//@ func parsePrimitiveDiagnosticNode(dec, majorType) (n, err)
+//@   props C02
+//@   requires wf: sdWF(dec)
+//@   ensures wf: sdWF(dec) && dec.data == old(dec.data) && sdPos(dec) >= old(sdPos(dec))
+//@   ensures node: err == nil ==> n != nil
+//@ func parseSpecialDiagnosticNode(dec, additional) (n, err)
+//@   props C02
+//@   requires wf: sdWF(dec)
+//@   ensures wf: sdWF(dec) && dec.data == old(dec.data) && sdPos(dec) >= old(sdPos(dec))
+//@   ensures node: err == nil ==> n != nil
+//@ func parseTaggedDiagnosticNode(dec, depth) (n, err)
+//@   props C02
+//@   requires wf: sdWF(dec)
+//@   ensures wf: sdWF(dec) && dec.data == old(dec.data) && sdPos(dec) >= old(sdPos(dec))
+//@   ensures node: err == nil ==> n != nil
+//@ func parseArrayDiagnosticNode(dec, depth) (n, err)
+//@   props C02
+//@   requires wf: sdWF(dec)
+//@   ensures wf: sdWF(dec) && dec.data == old(dec.data) && sdPos(dec) >= old(sdPos(dec))
+//@   ensures node: err == nil ==> n != nil
+//@   loop 0 invariant sdWF(dec) && dec.data == old(dec.data) && sdPos(dec) >= start && start == old(sdPos(dec))
+//@   loop 1 invariant sdWF(dec) && dec.data == old(dec.data) && sdPos(dec) >= start && start == old(sdPos(dec))
+//@ func parseMapDiagnosticNode(dec, depth) (n, err)
+//@   props C02
+//@   requires wf: sdWF(dec)
+//@   ensures wf: sdWF(dec) && dec.data == old(dec.data) && sdPos(dec) >= old(sdPos(dec))
+//@   ensures node: err == nil ==> n != nil
+//@   loop 0 invariant sdWF(dec) && dec.data == old(dec.data) && sdPos(dec) >= start && start == old(sdPos(dec))
+//@   loop 1 invariant sdWF(dec) && dec.data == old(dec.data) && sdPos(dec) >= start && start == old(sdPos(dec))
+//@ func parseIndefiniteStringDiagnosticNode(dec, majorType, depth) (n, err)
+//@   props C02
+//@   requires wf: sdWF(dec)
+//@   ensures wf: sdWF(dec) && dec.data == old(dec.data) && sdPos(dec) >= old(sdPos(dec))
+//@   ensures node: err == nil ==> n != nil
+//@   loop 0 invariant sdWF(dec) && dec.data == old(dec.data) && sdPos(dec) >= start && start == old(sdPos(dec))
